@@ -112,10 +112,15 @@ Build == /\ st.phase = "idle" /\ ~over
                         xd |-> <<1, 1>>, yd |-> IF sup THEN <<1, 1>> ELSE <<0, 0>>])
          /\ UNCHANGED <<s0, r, t, cfgI, fault, detected, over>>
 
+(* formats are tried in the order of the harness (the protocol admits any order) *)
+NextFmts(done) == IF "bincode" \notin done THEN {"bincode"}
+                  ELSE IF "json" \notin done THEN {"json"}
+                  ELSE {"jsonperm"} \ done
 Ser == /\ Ready(st)
-       /\ \E fmt \in Formats \ st.fmts, status \in Statuses("serFail") :
+       /\ \E fmt \in NextFmts(st.fmts), status \in Statuses("serFail") :
             Judge([ev |-> "Ser", fmt |-> fmt, status |-> status])
-       /\ UNCHANGED <<s0, r, t, cfgI, fault, detected, over>>
+       /\ r' = s0 /\ t' = s0
+       /\ UNCHANGED <<s0, cfgI, fault, detected, over>>
 
 De == /\ st.phase = "ser"
       /\ \E status \in Statuses("deFail") :
@@ -132,7 +137,8 @@ De == /\ st.phase = "ser"
 EqRestored == /\ st.phase = "de" /\ st.hasEq
               /\ Judge([ev |-> "Eq", kind |-> "restored", fmt |-> st.fmt, status |-> "ok",
                         result |-> EqImpl(s0, r)])
-              /\ UNCHANGED <<s0, r, t, cfgI, fault, detected, over>>
+              /\ r' = s0
+              /\ UNCHANGED <<s0, t, cfgI, fault, detected, over>>
 
 EqSelf == /\ Ready(st) /\ st.hasEq /\ ~st.selfDone
           /\ Judge([ev |-> "Eq", kind |-> "self", fmt |-> "-", status |-> "ok", result |-> EqImpl(s0, s0)])
@@ -142,25 +148,27 @@ EqSelf == /\ Ready(st) /\ st.hasEq /\ ~st.selfDone
    when fitting is deterministic and ANY state otherwise; a fit on other data
    may give any state at all -- also the same one *)
 Hows == {"same", "indep", "shift", "rowsonly"}
-Alt == /\ Ready(st) /\ st.fmts # {}
+Alt == /\ Ready(st) /\ {"bincode", "json"} \subseteq st.fmts
        /\ \E how \in Hows, status \in {"ok", "err"} :
             LET role == IF how = "same" THEN "refit" ELSE "other"
                 cands == IF how = "same" /\ st.det /\ fault # "nondetFit" THEN {s0} ELSE States
             IN \E x \in cands :
-                 /\ t' = x
+                 /\ t' = (IF status = "ok" /\ st.hasEq THEN x ELSE s0)
+                 /\ r' = s0
                  /\ Judge([ev |-> "Alt", role |-> role, how |-> how, status |-> status,
                            obs |-> IF status = "ok" THEN ObsOf(x) ELSE NoObs,
                            xd |-> IF how = "same" THEN <<1, 1>> ELSE <<2, 2>>,
                            yd |-> IF ~st.sup THEN <<0, 0>>
                                   ELSE IF how \in {"same", "rowsonly"} THEN <<1, 1>> ELSE <<2, 2>>])
-       /\ UNCHANGED <<s0, r, cfgI, fault, detected, over>>
+       /\ UNCHANGED <<s0, cfgI, fault, detected, over>>
 
 EqAlt == /\ st.phase = "alt" /\ st.hasEq
          /\ LET panics == fault = "eqPanics" /\ st.arole = "other" /\ t.d # s0.d
             IN Judge([ev |-> "Eq", kind |-> st.arole, fmt |-> st.ahow,
                       status |-> IF panics THEN "panic" ELSE "ok",
                       result |-> IF panics THEN FALSE ELSE EqImpl(s0, t)])
-         /\ UNCHANGED <<s0, r, t, cfgI, fault, detected, over>>
+         /\ t' = s0
+         /\ UNCHANGED <<s0, r, cfgI, fault, detected, over>>
 
 Finish == /\ Ready(st) /\ {"bincode", "json"} \subseteq st.fmts
           /\ Judge([ev |-> "End"])
@@ -222,5 +230,5 @@ InvJsonClose ==
         /\ Abs((r.c \div 2) - (s0.c \div 2)) <= 1
 (* the statement never forces two observably identical models to be unequal *)
 InvNoForcedInequality ==
-    (st.phase = "alt" /\ ObsOf(t) = ObsOf(s0)) => ~OtherIsDifferent(st)
+    (st.phase = "alt" /\ st.hasEq /\ ObsOf(t) = ObsOf(s0)) => ~OtherIsDifferent(st)
 =============================================================================
